@@ -264,7 +264,8 @@ impl SingleByteDecoder {
                 total += 1;
                 bytes = &bytes[offset + 1..];
             } else {
-                return total;
+                // The rest of the buffer is ASCII, which is compatible, too.
+                return total + bytes.len();
             }
         }
     }
